@@ -3,6 +3,11 @@ import Log4rsModel.Roller.Spec
 /-
 C07 driver.
 case   : kind(fw|del)  pattern  base  count  env(name:value,…)  file  init(path:bytes,…)  rolls(bytes|-,…)
+         a rolls element `X<dir>` is an interference of the environment between two rolls: the directory <dir>
+         (relative path) is removed with everything in it while the roller object stays alive; the
+         observation of that element is `rm|snapshot`. The statement then applies afresh to what is left:
+         the next rolls must (re)create whatever directories they need (`checkOps` restarts `checkRolls`
+         from the snapshot after the removal).
 observation (one field): per roll `res|snapshot`, rolls joined by `/`; snapshot = `path:bytes,…`
 sorted by path, `~` when empty; res ∈ ok | err | PANIC; `build-err` when the builder rejects.
 -/
@@ -40,6 +45,20 @@ def decRollObs (s : String) : Option RollObs :=
   | [res, snap] => (decSnap snap).map (fun d => { res, snap := d })
   | _ => none
 
+/-- one element of the rolls field -/
+inductive ROp where
+  | roll (x : Option Bytes)
+  | rmdir (p : Path)
+
+def decROp (s : String) : Option ROp :=
+  if s.startsWith "X" then (decStr (s.drop 1).toString).map ROp.rmdir
+  else (decOpt decBytes s).map ROp.roll
+
+def underDir (p q : Path) : Bool := (p ++ ['/']).isPrefixOf q
+
+/-- `remove_dir_all(dir)` on the implicit-directory disk -/
+def rmDir (d : Disk) (p : Path) : Disk := ⟨d.files.filter (fun e => !underDir p e.1)⟩
+
 structure Case where
   isDelete : Bool
   pattern : List Char
@@ -49,6 +68,8 @@ structure Case where
   file : Path
   init : Disk
   rolls : List (Option Bytes)
+  /-- the rolls field with the environment's directory removals in place -/
+  ops : List ROp := []
   /-- background-rotation build: per roll, was quiescence awaited (and a snapshot taken) -/
   bg : Option (List Bool) := none
 
@@ -61,8 +82,9 @@ def decCase : List String → Option Case
     let env ← mapM? (decPair decStr decStr) (decList ',' env)
     let file ← decStr file
     let init ← decSnap init
-    let rolls ← mapM? (decOpt decBytes) (decList ',' rolls)
-    pure { isDelete, pattern, base, count, env, file, init, rolls }
+    let ops ← mapM? decROp (decList ',' rolls)
+    let rolls := ops.filterMap (fun o => match o with | .roll x => some x | .rmdir _ => none)
+    pure { isDelete, pattern, base, count, env, file, init, rolls, ops }
   | _ => none
 
 /-- `… @bg sched`: the same case executed by the harness built with `background_rotation` -/
@@ -71,7 +93,7 @@ def decCaseBg (fields : List String) : Option Case :=
   | [k, p, b, c, e, f, i, r, "@bg", sched] => do
     let cs ← decCase [k, p, b, c, e, f, i, r]
     let ws ← mapM? (fun x => if x = "w" then some true else if x = "n" then some false else none) (decList ',' sched)
-    if ws.length ≠ cs.rolls.length || cs.isDelete then none else pure { cs with bg := some ws }
+    if ws.length ≠ cs.rolls.length || cs.isDelete || cs.ops.length ≠ cs.rolls.length then none else pure { cs with bg := some ws }
   | _ => decCase fields
 
 def Case.roller (c : Case) : RollerCfg := mkRoller (expandEnv c.env) id c.pattern c.base c.count
@@ -82,9 +104,12 @@ def renderRes : Outcome FsErr Disk → String
   | .panic _ => "PANIC"
 
 /-- the model's run: write the file, roll, snapshot — for every roll -/
-def runModel (c : Case) : Disk → List (Option Bytes) → List String
+def runModel (c : Case) : Disk → List ROp → List String
   | _, [] => []
-  | d, x :: rest =>
+  | d, .rmdir p :: rest =>
+    let d' := rmDir d p
+    ("rm|" ++ encSnap d') :: runModel c d' rest
+  | d, .roll x :: rest =>
     let d1 := match x with
       | some x => d.set c.file x
       | none => d
@@ -106,6 +131,28 @@ def runModelBg (c : Case) (fg : List String) (ws : List Bool) : List String :=
     let res := if c.count = 0 then parts.headD "" else "ok"
     let snap := (parts.drop 1).headD ""
     res ++ "|" ++ (if w then snap else "-"))
+
+/-- the specification over a history with directory removals: `checkRolls` on every stretch of rolls
+between two removals, each stretch starting from the directory as it is after the removal -/
+def checkOps (c : Case) (sc : SpecCfg) (prev : Disk) (seg : List (Option Bytes × RollObs)) :
+    List (ROp × RollObs) → Option String
+  | [] => checkSeg prev seg.reverse
+  | (.roll x, o) :: rest => checkOps c sc prev ((x, o) :: seg) rest
+  | (.rmdir p, o) :: rest =>
+    match checkSeg prev seg.reverse with
+    | some e => some e
+    | none =>
+      let before := match seg with
+        | (_, last) :: _ => last.snap
+        | [] => prev
+      if o.res ≠ "rm" || sortFiles o.snap.files ≠ sortFiles (rmDir before p).files then
+        some "harness: directory removal not as described"
+      else checkOps c sc o.snap [] rest
+where
+  checkSeg (init : Disk) (seg : List (Option Bytes × RollObs)) : Option String :=
+    let initWin := sc.names.filterMap (fun nm => init.get? nm)
+    let initRolled := (sc.names.map (fun nm => init.get? nm)).takeWhile Option.isSome |>.filterMap id
+    checkRolls sc initWin init initRolled seg
 
 def countHoles : List Char → Nat
   | [] => 0
@@ -138,6 +185,7 @@ def tagsOf (c : Case) : List String :=
     | .zstd => if c.isDelete then [] else ["zst"]
     | .none => []) ++
   (if c.rolls.any Option.isNone then ["missing-file"] else []) ++
+  (if c.ops.length ≠ c.rolls.length then ["dir-removed"] else []) ++
   (if !c.isDelete && c.count ≠ 0 && U32_MOD = c.base + c.count then ["u32-boundary"] else []) ++
   (if !c.isDelete && !representable c.base c.count then ["u32-unrepresentable"] else []) ++
   (if !c.isDelete && !hasHole c.pattern then ["no-hole"] else []) ++
@@ -171,7 +219,7 @@ def handle : Handler := fun cas obs =>
           else "FAIL:unrepresentable window accepted;sig=C07/base-plus-count-overflows-u32",
         tags := tagsOf c }
     else
-      let fgObs := runModel c c.init c.rolls
+      let fgObs := runModel c c.init c.ops
       let model := encList "/" (match c.bg with
         | some ws => runModelBg c fgObs ws
         | none => fgObs)
@@ -182,15 +230,13 @@ def handle : Handler := fun cas obs =>
       match mapM? decRollObs (decList '/' implObs) with
       | none => { model, spec := "FAIL:unreadable observation;sig=C07/observation", tags := tagsOf c }
       | some os =>
-        if os.length ≠ c.rolls.length then
+        if os.length ≠ c.ops.length then
           { model, spec := "FAIL:observation length;sig=C07/observation", tags := tagsOf c }
         else
           let sc : SpecCfg := { names := if c.isDelete then [] else windowNames r, file := c.file }
-          let initWin := sc.names.filterMap (fun nm => c.init.get? nm)
           -- the archives found at base, base+1, … (up to the first gap) are the most recently
-          -- rolled files of an earlier life: they count as rolled contents, newest first
-          let initRolled := (sc.names.map (fun nm => c.init.get? nm)).takeWhile Option.isSome |>.filterMap id
-          let spec := match checkRolls sc initWin c.init initRolled (c.rolls.zip os) with
+          -- rolled files of an earlier life: they count as rolled contents, newest first (checkSeg)
+          let spec := match checkOps c sc c.init [] (c.ops.zip os) with
             | none => "ok"
             | some clause => "FAIL:" ++ clause ++ ";sig=" ++ signature c clause
           { model, spec, tags := tagsOf c }
